@@ -124,6 +124,26 @@ def freeze_sweep(profile, nb, kmax, tag, victims=None, from_phase=0, solo=0):
     return fn
 
 
+def integrity_race_sweep(nq, kmax, tag):
+    """programs_fn: C04 race scenarios (gen.gen_integrity_race) over the payload classes, the claimer (process 1) cut before each hook"""
+    def fn(tier, seed):
+        rng = random.Random("%s/%d" % (tag, seed))
+        n, km = (nq[0], kmax[0]) if tier == "quick" else (nq[1], kmax[1])
+        out = []
+        pls = ["w1", "h4", "b3", "p5", "u16", "u8"]
+        for j in range(n):
+            base = gen.gen_integrity_race(rng, j + 11 * seed, pls[j % len(pls)])
+            for k in range(1, km + 1):
+                p = json.loads(json.dumps(base))
+                st = dict(p.get("strat", {}))
+                st.update({"freeze": [1, k, 1, 1], "p_spurious": 0.7, "max_spurious": 4, "seed": rng.randrange(1 << 30)})
+                p["strat"] = st
+                p["execs"] = 1
+                out.append(p)
+        return out
+    return fn
+
+
 def discrace_sweep(nq, kmax, tag):
     """programs_fn: waiter kind x disconnecting event combinations (gen.disc_combos), the first waiter frozen before each of
     its first kmax scheduling points of the race phase, running alone until then (one preemption at a chosen point)"""
@@ -190,7 +210,8 @@ PLANS = {
                                         R("handles", (300, 5000), (3, 6), "C12", True)]),
     "C13": dict(mc=MC("timed", bounded=["t_timed"]), runs=[R("timed", (400, 6000), (4, 8), "C13", True), R("chain", (150, 3000), (2, 6), "C13", True)]),
     "C04": dict(mc=MC("mixed"), runs=[R("integrity_" + pl, (n, n * 12), (2, 4), "C04", True, own_all=True)
-                                      for pl, n in (("u8", 260), ("u16", 120), ("w1", 60), ("h4", 60), ("b3", 60), ("p5", 60), ("z0", 40), ("z64", 40))],
+                                      for pl, n in (("u8", 260), ("u16", 120), ("w1", 60), ("h4", 60), ("b3", 60), ("p5", 60), ("z0", 40), ("z64", 40))]
+                + [R("integrity_race", (0, 0), (1, 1), "C04", True, own_all=True, programs_fn=integrity_race_sweep((30, 600), (30, 45), "integrace"))],
                 assume=["bit patterns: u8 exhaustive (every value on rotating paths), u16 boundary + random, larger classes checksum-tagged ids; the TLA+ side carries identities, bytes are compared by the harness projection id <-> bytes"]),
     "C06": dict(mc=MC("sync", "async", "live_sync", "live_async", "live_timed", thorough=["t_sync", "t_async"]), spec_replay=True, runs=[R("progress", (500, 8000), (3, 6), "ALL", True, own_all=True), R("chain", (100, 2000), (2, 4), None, True, own_all=True),
                                                                 R("waiters", (250, 5000), (2, 4), None, True, own_all=True)]),
@@ -211,7 +232,8 @@ PLANS = {
     "C18": dict(mc=MCA("1p"), l2=False,
                 runs=[R("seq", (0, 0), (1, 1), None, True, programs_fn=seq_programs)],
                 assume=["single-thread call sequences: exhaustive up to length 2 (quick) / 3 (thorough) over a 58-call alphabet per capacity, random longer ones"]),
-    "C19": dict(mc=MC("mixed", bounded=["t_mixed"]), runs=[R("drain", (300, 5000), (4, 8), None, True), R("chain_s", (150, 3000), (2, 6), None, True)]),
+    "C19": dict(mc=MC("mixed", bounded=["t_mixed"]), runs=[R("drain", (300, 5000), (4, 8), None, True), R("chain_s", (150, 3000), (2, 6), None, True),
+                                                           R("chain_drain", (250, 4000), (2, 4), None, True, own_all=True)]),
 }
 
 
